@@ -228,31 +228,19 @@ theorem mod_int_int_eq (x n : Int) : mod_int_int x n = x % n := rfl
 theorem mod_int_fq_eq {q : Nat} (a : Fq q) (n : Int) : mod_int_fq a.n n = (a.n : Int) % n := rfl
 
 /-- optimized generic `FQP.sgn0` (the loop over the coefficients with Python's value-level `and` / `or`) is
-    `Fqp.sgn0`, for every element. -/
+    `Fqp.sgn0`, for every element.  (The step function of the generated fold is not restated here: it is read off the
+    goal, and the step lemma is proved by cases on the state, so `sign = sign or (zero and sign_i)` and
+    `if not sign: sign = zero and sign_i` are both fine.) -/
 theorem sgn0_eq (a : Fqp .opt p mc) : FQP.sgn0 p mc (obj a) = ((Fqp.sgn0 a : Nat) : Int) := by
   unfold FQP.sgn0 Fqp.sgn0 obj
-  have key := fields_foldl_rel
+  refine (fields_foldl_rel
     (r := fun (g : Int × Int) (m : Nat × Bool) => g.1 = (m.1 : Int) ∧ g.2 = if m.2 then 1 else 0)
-    (g₁ := fun (st : Nat × Bool) (x : Int) =>
-      let (sign, zero) := st
-      let sign_i := (x % 2).toNat
-      let zero_i := x == 0
-      (if sign ≠ 0 then sign else if zero then sign_i else 0, zero && zero_i))
-    (g₂ := fun (st : Int × Int) (x_i : Int) =>
-      let (sign, zero) := st
-      let sign_i := (mod_int_int x_i (2 : Int))
-      let zero_i := decide (x_i = (0 : Int))
-      let sign := (if sign ≠ 0 then sign else (if zero ≠ 0 then sign_i else zero))
-      let zero := (if zero ≠ 0 then (if zero_i then (1 : Int) else (0 : Int)) else zero)
-      (sign, zero))
-    (l := a.coeffs) (i₁ := (0, true)) (i₂ := ((0 : Int), (1 : Int))) (by simp)
-    (by
-      rintro ⟨s2, z2⟩ ⟨s1, z1⟩ x ⟨h1, h2⟩
-      simp only at h1 h2
-      subst h1 h2
-      have hx : ((x % 2).toNat : Int) = x % 2 := Int.toNat_of_nonneg (Int.emod_nonneg x (by decide))
-      cases z1 <;> by_cases hs : s1 = 0 <;> by_cases hx0 : x = 0 <;> simp [hs, hx0, hx, mod_int_int])
-  exact key.1
+    (l := a.coeffs) (i₁ := (0, true)) (i₂ := ((0 : Int), (1 : Int))) (by simp) ?_).1
+  rintro ⟨s2, z2⟩ ⟨s1, z1⟩ x ⟨h1, h2⟩
+  simp only at h1 h2
+  subst h1 h2
+  have hx : ((x % 2).toNat : Int) = x % 2 := Int.toNat_of_nonneg (Int.emod_nonneg x (by decide))
+  cases z1 <;> by_cases hs : s1 = 0 <;> by_cases hx0 : x = 0 <;> simp [hs, hx0, hx, mod_int_int]
 
 /-- optimized `FQ2.sgn0` (the `m = 2` special case; unpacking `self.coeffs` into two names raises `ValueError` unless
     there are exactly two coefficients) is `Fqp.sgn0_fq2`. -/
